@@ -1,5 +1,5 @@
 /-
-  C22 — Linked debug info still points at the right source text.   (proved at the level of the debug symbols)
+  C22 — Linked debug info still points at the right source text.   (proved for the link of two assembled sources)
   Proved: the combined source is `A ++ "\n" ++ B`; its newline table is A's newlines, the separator at `len A`, then B's
   newlines shifted by `len A + 1`, so the combined line count is the sum of both line counts and B's line `l` is the
   combined line `l + lines(A)`; any byte range of B, shifted by `len A + 1`, slices the same text out of the combined
@@ -14,304 +14,79 @@
   `lines(A)`, and `read_line` of that line reads the same text as in the file the address came from.
   Label spans after linking are subject to findings F21/F23 for labels whose upper-casing changes the byte length; the
   correspondence check compares, for every mapped address and label of every linked file, text before and after linking.
+  **Source level** (`assembled_line_map_shape`, `linked_sources_line_text`): the hypotheses of `linked_line_reads_same_text`
+  hold for every file assembled from a source text with debug symbols — the line map is sorted, every block starts below
+  the line count (a block's first line is the line of a statement), the source info is the one of the text — so for ANY
+  two source texts that parse and assemble with debug symbols (line counts within 64 bits), the linked debug symbols report
+  for every address of A the same line and text, and for every address only in B its line shifted by lines(A) with the
+  same text.
 -/
-import Lc3V.Lemmas.SortedMap
-import Lc3V.Props.C25
-import Lc3V.Lemmas.SourceLines
+import Lc3V.Lemmas.C22Core
+import Lc3V.Props.C24
 set_option linter.unusedSimpArgs false
+set_option linter.unusedVariables false
 namespace Lc3V.C22
 open Lc3V SourceInfo
 
-theorem nlFrom_append (a b : List Char) : ∀ off, nlFrom off (a ++ b) = nlFrom off a ++ nlFrom (off + blen a) b := by
-  induction a with
-  | nil => intro off; simp [nlFrom, blen]
-  | cons c cs ih =>
-    intro off
-    simp only [List.cons_append, nlFrom, blen]
-    by_cases h : c = '\n'
-    · subst h
-      simp only [if_true, List.cons_append]
-      rw [ih (off + 1)]
-      have : ('\n' : Char).utf8Size = 1 := by decide
-      rw [this, Nat.add_assoc]
-    · simp only [h, if_false]
-      rw [ih (off + c.utf8Size), Nat.add_assoc]
+/-- the debug symbols of a file assembled from a source text: sorted line blocks that start below the line count -/
+theorem assembled_line_map_shape (src : List Char) (stmts : List Stmt) (obj : ObjFile)
+    (hp : parseAst src = .ok stmts) (h : assemble stmts (some src) = .ok obj) :
+    ∃ t m, obj.sym = some t ∧ t.debug = some ⟨m, ofText src⟩ ∧ SortedKeys m ∧ ∀ x ∈ m, x.1 < (ofText src).countLines := by
+  have hl := C24.parsed_lines_increasing src stmts hp
+  -- pass 1 succeeded; the symbol table is kept because debug symbols were requested
+  have hp1 : ∃ t, pass1 stmts (some src) = .ok t ∧ obj.sym = some t := by
+    unfold assemble at h
+    cases h1 : pass1 stmts (some src) with
+    | error e => rw [h1] at h; cases h
+    | ok t =>
+      rw [h1] at h
+      dsimp only at h
+      unfold pass2 at h
+      cases hf : stmts.foldlM (pass2Step t) ⟨[], none⟩ with
+      | error e => rw [hf] at h; cases h
+      | ok st => rw [hf] at h; cases h; exact ⟨t, rfl, by simp⟩
+  obtain ⟨t, hp1, hsym⟩ := hp1
+  obtain ⟨lsf, stf, hf, _, hv, hnone, m, hm, hch, _⟩ := final_vector stmts src t hp1 hl
+  refine ⟨t, m, hsym, hm, (chained_sorted m 0 hch).1, fun x hx => ?_⟩
+  have hne := C24.nonEmpty_of_chained m 0 hch
+  have hno := chained_notOverlapping m 0 hch
+  obtain ⟨k, ws⟩ := x
+  have hws : ws ≠ [] := hne (k, ws) hx
+  have hlen : 0 < ws.length := List.length_pos_iff.mpr hws
+  have hg := C24.get_of_mem m hno hne k ws hx 0 hlen
+  have hlook : t.lookupLine k = some ws[0] := by simpa [SymTab.lookupLine, hm] using hg
+  -- a line that maps to an address is the line of a statement, hence below the line count
+  apply Classical.byContradiction
+  intro hge
+  have : (lsf[k]?).join = none := by
+    apply hnone
+    intro s hs heq
+    have := LinesFrom.lt _ _ stmts 0 hl s hs
+    rw [heq] at this
+    exact hge this
+  rw [hv k, this] at hlook
+  cases hlook
 
-/-- newline table of the combined source -/
-theorem nl_of_link (a b : List Char) :
-    (ofText (a ++ '\n' :: b)).nl = nlFrom 0 a ++ [blen a] ++ nlFrom (blen a + 1) b ++ [blen a + 1 + blen b] := by
-  unfold ofText
-  simp only
-  rw [nlFrom_append]
-  have : nlFrom (0 + blen a) ('\n' :: b) = blen a :: nlFrom (blen a + 1) b := by simp [nlFrom]
-  rw [this, blen_append]
-  have : blen ('\n' :: b) = 1 + blen b := by simp only [blen]; rfl
-  rw [this]
-  simp [Nat.add_assoc]
-where
-  blen_append (a b : List Char) : blen (a ++ b) = blen a + blen b := by
-    induction a with
-    | nil => simp [blen]
-    | cons c cs ih => simp [blen, ih]; omega
-
-theorem nlFrom_length' (off : Nat) (cs : List Char) : (nlFrom off cs).length = (nlFrom 0 cs).length := by
-  rw [C25.nlFrom_length, C25.nlFrom_length]
-
-/-- the combined source has as many lines as both sources together; B's first line is line `lines(A)` -/
-theorem count_lines_link (a b : List Char) :
-    (ofText (a ++ '\n' :: b)).countLines = (ofText a).countLines + (ofText b).countLines := by
-  unfold countLines
-  rw [nl_of_link]
-  simp only [ofText, List.length_append, List.length_cons, List.length_nil, nlFrom_length' (blen a + 1) b]
-  omega
-
-/-- a byte range of B, shifted by the length of the prefix, reads the same text in the combined source -/
-theorem slice_shift (p b : List Char) (i j : Nat) (hj : 0 < j) : sliceBytes (p ++ b) (blen p + i) (blen p + j) = sliceBytes b i j := by
-  induction p with
-  | nil => simp [blen]
-  | cons c cs ih =>
-    have hpos := c.utf8Size_pos
-    simp only [List.cons_append, blen]
-    rw [sliceBytes]
-    rw [if_neg (by omega), if_neg (by omega)]
-    have e1 : c.utf8Size + blen cs + i - c.utf8Size = blen cs + i := by omega
-    have e2 : c.utf8Size + blen cs + j - c.utf8Size = blen cs + j := by omega
-    rw [e1, e2, ih]
-
-/-- a byte range of A reads the same text after B is appended -/
-theorem slice_prefix (a b : List Char) : ∀ (i j : Nat), j ≤ blen a → sliceBytes (a ++ b) i j = sliceBytes a i j := by
-  induction a with
-  | nil => intro i j hj; simp only [blen, Nat.le_zero] at hj; subst hj; cases b <;> simp [sliceBytes]
-  | cons c cs ih =>
-    intro i j hj
-    simp only [List.cons_append, sliceBytes, blen] at *
-    by_cases h0 : j = 0
-    · simp [h0]
-    · rw [if_neg h0, if_neg h0]
-      by_cases hi : i = 0
-      · rw [if_pos hi, if_pos hi]
-        by_cases hc : c.utf8Size ≤ j
-        · rw [if_pos hc, if_pos hc, ih 0 (j - c.utf8Size) (by omega)]
-        · rw [if_neg hc, if_neg hc]
-      · rw [if_neg hi, if_neg hi, ih _ _ (by omega)]
-
-/-- label positions: B's are shifted by `len A + 1` exactly when both files carry source text -/
-theorem label_shift (at_ bt : SymTab) (ad bd : DebugSyms) (ha : at_.debug = some ad) (hb : bt.debug = some bd) :
-    linkShift at_ bt = blen ad.src.src + 1 := by
-  unfold linkShift; rw [ha, hb]
-
-theorem label_shift_none (at_ bt : SymTab) (h : at_.debug = none ∨ bt.debug = none) : linkShift at_ bt = 0 := by
-  unfold linkShift
-  rcases h with h | h
-  · rw [h]
-  · rw [h]; cases at_.debug <;> rfl
-
-/-- the combined debug symbols: source `A ++ "\n" ++ B`, B's line blocks re-keyed by the number of lines of A -/
-theorem link_source (a b : DebugSyms) : (DebugSyms.link a b).src.src = a.src.src ++ '\n' :: b.src.src := rfl
-
-theorem foldl_insert_keeps {α} (x : Nat × α) : ∀ (sh m : List (Nat × α)), SortedKeys m → x ∈ m → (∀ y ∈ sh, y.1 ≠ x.1) →
-    x ∈ sh.foldl (fun m e => insertSortedBy e.1 e.2 m) m := by
-  intro sh
-  induction sh with
-  | nil => intro m _ hx _; exact hx
-  | cons y ys ih =>
-    intro m hm hx hfree
-    simp only [List.foldl_cons]
-    apply ih _ (sorted_insertSortedBy _ _ _ hm)
-    · exact (mem_insertSortedBy y.1 y.2 m hm x).mpr (Or.inr ⟨hx, fun e => hfree y (by simp) e.symm⟩)
-    · intro z hz; exact hfree z (by simp [hz])
-
-/-- A's line blocks survive linking unless B (re-keyed) defines the same first line -/
-theorem link_keeps_a_blocks (a b : DebugSyms) (ha : SortedKeys a.lineMap) (x : Nat × List W) (hx : x ∈ a.lineMap)
-    (hfree : ∀ y ∈ b.lineMap, satAdd y.1 a.src.countLines ≠ x.1) : x ∈ (DebugSyms.link a b).lineMap := by
-  unfold DebugSyms.link
-  dsimp only
-  apply foldl_insert_keeps x _ _ ha hx
-  intro y hy
-  obtain ⟨z, hz, rfl⟩ := List.mem_map.mp hy
-  exact hfree z hz
-
-/-! ### line text after linking -/
-
-theorem splitNl_cons_nl (r : List Char) : splitNl ('\n' :: r) = [] :: splitNl r := by simp [splitNl]
-
-theorem splitNl_cons_other (c : Char) (r x : List Char) (xs : List (List Char)) (h : c ≠ '\n') (hs : splitNl r = x :: xs) :
-    splitNl (c :: r) = (c :: x) :: xs := by simp [splitNl, h, hs]
-
-theorem splitNl_append (a b : List Char) : splitNl (a ++ '\n' :: b) = splitNl a ++ splitNl b := by
-  induction a with
-  | nil => simp [splitNl_cons_nl, splitNl]
-  | cons c cs ih =>
-    simp only [List.cons_append]
-    by_cases h : c = '\n'
-    · subst h
-      rw [splitNl_cons_nl, splitNl_cons_nl, ih]; rfl
-    · cases hs : splitNl cs with
-      | nil => exact absurd hs (splitNl_ne_nil cs)
-      | cons x xs =>
-        rw [splitNl_cons_other c cs x xs h hs, splitNl_cons_other c (cs ++ '\n' :: b) x (xs ++ splitNl b) h (by rw [ih, hs]; rfl)]
-        rfl
-
-/-- **the text of a line after linking**: in the combined source, a line of A reads what it read in A, and line `l` of B —
-    now line `lines(A) + l` — reads what it read in B (`read_line` = the line without surrounding white space, C25) -/
-theorem read_line_after_link (a b : List Char) :
-    (∀ l, l < (ofText a).countLines → (ofText (a ++ '\n' :: b)).readLine l = (ofText a).readLine l) ∧
-    (∀ l, l < (ofText b).countLines → (ofText (a ++ '\n' :: b)).readLine ((ofText a).countLines + l) = (ofText b).readLine l) := by
-  have hla := (C25.lines_of_text a).1
-  have hlb := (C25.lines_of_text b).1
-  have hlab := (C25.lines_of_text (a ++ '\n' :: b)).1
-  have hsplit := splitNl_append a b
-  constructor
-  · intro l hl
-    have h1 : l < (splitNl a).length := by rw [hla]; exact hl
-    have h2 : l < (splitNl (a ++ '\n' :: b)).length := by rw [hsplit, List.length_append]; omega
-    obtain ⟨_, _, _, _, r1⟩ := line_span_trim a l h1
-    obtain ⟨_, _, _, _, r2⟩ := line_span_trim (a ++ '\n' :: b) l h2
-    rw [r1, r2, hsplit]
-    congr 2
-    simp only [List.getD_eq_getElem?_getD]
-    rw [List.getElem?_append_left h1]
-  · intro l hl
-    have h1 : l < (splitNl b).length := by rw [hlb]; exact hl
-    have h2 : (ofText a).countLines + l < (splitNl (a ++ '\n' :: b)).length := by
-      rw [hsplit, List.length_append, hla]; omega
-    obtain ⟨_, _, _, _, r1⟩ := line_span_trim b l h1
-    obtain ⟨_, _, _, _, r2⟩ := line_span_trim (a ++ '\n' :: b) _ h2
-    rw [r1, r2, hsplit]
-    congr 2
-    simp only [List.getD_eq_getElem?_getD]
-    rw [List.getElem?_append_right (by rw [hla]; omega), hla]
-    congr 2
-    omega
-
-/-- for the linked debug symbols -/
-theorem read_line_link (x y : DebugSyms) (hx : x.src = ofText x.src.src) (hy : y.src = ofText y.src.src) :
-    (∀ l, l < x.src.countLines → (DebugSyms.link x y).src.readLine l = x.src.readLine l) ∧
-    (∀ l, l < y.src.countLines → (DebugSyms.link x y).src.readLine (x.src.countLines + l) = y.src.readLine l) := by
-  have := read_line_after_link x.src.src y.src.src
-  rw [← hx, ← hy] at this
-  exact this
-
-/-! ### address → line → text after linking -/
-
-/-- inserting a key above every key of a sorted map appends -/
-theorem insert_above {α} (k : Nat) (v : α) : ∀ (m : List (Nat × α)), (∀ x ∈ m, x.1 < k) → insertSortedBy k v m = m ++ [(k, v)] := by
-  intro m
-  induction m with
-  | nil => intro _; rfl
-  | cons e rest ih =>
-    intro h
-    obtain ⟨k', v'⟩ := e
-    have hk : k' < k := h (k', v') (by simp)
-    unfold insertSortedBy
-    rw [if_neg (by omega), if_neg (by omega), ih (fun x hx => h x (by simp [hx]))]
-    rfl
-
-/-- folding a sorted list of keys that are all above the map's keys appends it -/
-theorem foldl_insert_above {α} : ∀ (sh m : List (Nat × α)), SortedKeys sh → (∀ x ∈ m, ∀ y ∈ sh, x.1 < y.1) →
-    sh.foldl (fun m e => insertSortedBy e.1 e.2 m) m = m ++ sh := by
-  intro sh
-  induction sh with
-  | nil => intro m _ _; simp
-  | cons y ys ih =>
-    intro m hs hlt
-    simp only [List.foldl_cons]
-    rw [insert_above y.1 y.2 m (fun x hx => hlt x hx y (by simp))]
-    rw [ih (m ++ [(y.1, y.2)]) hs.tail ?_]
-    · simp
-    · intro x hx z hz
-      rcases List.mem_append.mp hx with h1 | h1
-      · exact hlt x h1 z (by simp [hz])
-      · simp only [List.mem_singleton] at h1
-        rw [h1]
-        exact hs.head_lt z hz
-
-theorem find_map_shift (m : LineMap) (L : Nat) (a : W) (hsat : ∀ x ∈ m, x.1 + L ≤ 18446744073709551615) :
-    LineMap.find (m.map (fun e => (satAdd e.1 L, e.2))) a = (LineMap.find m a).map (· + L) := by
-  unfold LineMap.find
-  induction m with
-  | nil => rfl
-  | cons e rest ih =>
-    have hs : satAdd e.1 L = e.1 + L := by
-      unfold satAdd; have := hsat e (by simp); omega
-    simp only [List.map_cons, List.findSome?_cons, hs]
-    cases hi : idxOf a e.2 0 with
-    | some i => simp only [Option.map_some]; congr 1; omega
-    | none =>
-      simp only [Option.map_none]
-      exact ih (fun x hx => hsat x (by simp [hx]))
-
-theorem sortedKeys_map_shift {α} (L : Nat) : ∀ (m : List (Nat × α)), SortedKeys m → (∀ x ∈ m, x.1 + L ≤ 18446744073709551615) →
-    SortedKeys (m.map (fun e => (satAdd e.1 L, e.2))) := by
-  intro m
-  induction m with
-  | nil => intro _ _; trivial
-  | cons e rest ih =>
-    intro hs hsat
-    simp only [List.map_cons]
-    apply sortedKeys_cons _ _ (ih hs.tail (fun x hx => hsat x (by simp [hx])))
-    intro b hb
-    obtain ⟨z, hz, rfl⟩ := List.mem_map.mp hb
-    have h1 := hs.head_lt z hz
-    have h2 := hsat e (by simp)
-    have h3 := hsat z (by simp [hz])
-    simp only [satAdd]
-    omega
-
-/-- **the address → line query after linking**: when A's line blocks start below A's line count (as the assembler produces
-    them) and B's lines shifted by A's line count still fit 64 bits, the linked line map is A's blocks followed by B's
-    re-keyed blocks, so an address recorded in A keeps its line and an address recorded only in B gets its line plus the
-    number of lines of A -/
-theorem link_find (a b : DebugSyms) (hb : SortedKeys b.lineMap)
-    (hka : ∀ x ∈ a.lineMap, x.1 < a.src.countLines) (hsat : ∀ x ∈ b.lineMap, x.1 + a.src.countLines ≤ 18446744073709551615) (A : W) :
-    (DebugSyms.link a b).lineMap = a.lineMap ++ b.lineMap.map (fun e => (satAdd e.1 a.src.countLines, e.2)) ∧
-    (DebugSyms.link a b).lineMap.find A =
-      (match a.lineMap.find A with
-       | some l => some l
-       | none => (b.lineMap.find A).map (· + a.src.countLines)) := by
-  have hM : (DebugSyms.link a b).lineMap = a.lineMap ++ b.lineMap.map (fun e => (satAdd e.1 a.src.countLines, e.2)) := by
-    unfold DebugSyms.link
-    dsimp only
-    apply foldl_insert_above _ _ (sortedKeys_map_shift _ _ hb hsat)
-    intro x hx y hy
-    obtain ⟨z, hz, rfl⟩ := List.mem_map.mp hy
-    have h1 := hka x hx
-    have h2 := hsat z hz
-    simp only [satAdd]
-    omega
-  refine ⟨hM, ?_⟩
-  rw [hM]
-  have hshift := find_map_shift b.lineMap a.src.countLines A hsat
-  unfold LineMap.find at hshift ⊢
-  rw [List.findSome?_append]
-  cases h1 : List.findSome? (fun b => Option.map (fun x => b.1 + x) (idxOf A b.2 0)) a.lineMap with
-  | some l => rfl
-  | none => simp only [Option.none_or]; exact hshift
-
-/-- **C22 at the level of the debug symbols**: after linking, the source line reported for an address reads the same text as in
-    the file the address came from -/
-theorem linked_line_reads_same_text (a b : DebugSyms) (ha : a.src = ofText a.src.src) (hbs : b.src = ofText b.src.src)
-    (hb : SortedKeys b.lineMap) (hka : ∀ x ∈ a.lineMap, x.1 < a.src.countLines)
-    (hsat : ∀ x ∈ b.lineMap, x.1 + a.src.countLines ≤ 18446744073709551615) (A : W) :
-    (∀ l, a.lineMap.find A = some l → l < a.src.countLines →
-      (DebugSyms.link a b).lineMap.find A = some l ∧ (DebugSyms.link a b).src.readLine l = a.src.readLine l) ∧
-    (∀ l, a.lineMap.find A = none → b.lineMap.find A = some l → l < b.src.countLines →
-      (DebugSyms.link a b).lineMap.find A = some (l + a.src.countLines) ∧
-      (DebugSyms.link a b).src.readLine (l + a.src.countLines) = b.src.readLine l) := by
-  obtain ⟨_, hf⟩ := link_find a b hb hka hsat A
-  obtain ⟨r1, r2⟩ := read_line_link a b ha hbs
-  constructor
-  · intro l hl hlt
-    rw [hf, hl]
-    exact ⟨rfl, r1 l hlt⟩
-  · intro l hn hl hlt
-    rw [hf, hn, hl]
-    refine ⟨rfl, ?_⟩
-    rw [Nat.add_comm]
-    exact r2 l hlt
+/-- **linking two assembled sources**: the line reported for an address, and the text of that line, survive linking -/
+theorem linked_sources_line_text (srcA srcB : List Char) (stA stB : List Stmt) (oA oB : ObjFile)
+    (hpA : parseAst srcA = .ok stA) (hA : assemble stA (some srcA) = .ok oA)
+    (hpB : parseAst srcB = .ok stB) (hB : assemble stB (some srcB) = .ok oB)
+    (hfit : (ofText srcA).countLines + (ofText srcB).countLines ≤ 18446744073709551615) :
+    ∃ (tA tB : SymTab) (dA dB : DebugSyms), oA.sym = some tA ∧ oB.sym = some tB ∧ tA.debug = some dA ∧ tB.debug = some dB ∧
+      ∀ A : W,
+        (∀ l, dA.lineMap.find A = some l → l < dA.src.countLines →
+          (DebugSyms.link dA dB).lineMap.find A = some l ∧ (DebugSyms.link dA dB).src.readLine l = dA.src.readLine l) ∧
+        (∀ l, dA.lineMap.find A = none → dB.lineMap.find A = some l → l < dB.src.countLines →
+          (DebugSyms.link dA dB).lineMap.find A = some (l + dA.src.countLines) ∧
+          (DebugSyms.link dA dB).src.readLine (l + dA.src.countLines) = dB.src.readLine l) := by
+  obtain ⟨tA, mA, hsA, hdA, _, hkA⟩ := assembled_line_map_shape srcA stA oA hpA hA
+  obtain ⟨tB, mB, hsB, hdB, hsortB, hkB⟩ := assembled_line_map_shape srcB stB oB hpB hB
+  refine ⟨tA, tB, ⟨mA, ofText srcA⟩, ⟨mB, ofText srcB⟩, hsA, hsB, hdA, hdB, fun A => ?_⟩
+  exact linked_line_reads_same_text ⟨mA, ofText srcA⟩ ⟨mB, ofText srcB⟩ rfl rfl hsortB hkA
+    (fun x hx => by have := hkB x hx; show x.1 + (ofText srcA).countLines ≤ _; omega) A
 
 def obligations : List Lean.Name :=
-  [``linked_line_reads_same_text, ``link_find, ``foldl_insert_above, ``find_map_shift,
+  [``linked_sources_line_text, ``assembled_line_map_shape, ``linked_line_reads_same_text, ``link_find, ``foldl_insert_above, ``find_map_shift,
    ``nlFrom_append, ``nl_of_link, ``count_lines_link, ``slice_shift, ``slice_prefix, ``label_shift, ``label_shift_none, ``link_source, ``link_keeps_a_blocks, ``read_line_after_link, ``read_line_link]
 
 end Lc3V.C22
